@@ -18,6 +18,7 @@ pub mod memts;
 pub mod scope;
 pub mod sel;
 pub mod selpure;
+pub mod tb;
 pub mod thr;
 
 pub type LaneFn = fn(&str) -> String;
@@ -45,6 +46,7 @@ pub fn find(name: &str) -> Option<LaneFn> {
         "scope" => scope::run,
         "sel" => sel::run,
         "selpure" => selpure::run,
+        "tb" => tb::run,
         "thr" => thr::run,
         _ => return None,
     })
